@@ -337,11 +337,30 @@ class Interp:
                 bs = F.bytes_const(o)
                 if bs is not None:
                     return Const(bs)
-                return TOP
+                return self.named_const(o)
             if o.get("ty") == "bool":
                 return Const(bool(v))
             return Const(v)
         return TOP
+
+    def named_const(self, o):
+        """Value of an operand that names a constant item of the crate (`const X: T = ...`), from the item's own MIR."""
+        nm = (o.get("dbg") or "").replace("const ", "").strip()
+        cache = self.__dict__.setdefault("_consts", {})
+        if nm in cache:
+            return cache[nm]
+        v = TOP
+        from .. import tables
+        for crate in ("anything", "any"):
+            cb = self.facts.fn(nm, crate) if nm else None
+            if cb is not None and cb.kind.startswith(("Const", "AssocConst")):
+                try:
+                    v = self._from_tree(tables.static_value(self.facts, nm, -1, crate))
+                except tables.StaticEvalError:
+                    v = TOP
+                break
+        cache[nm] = v
+        return v
 
     def promoted_value(self, path, index):
         """Value of a promoted constant (straight-line MIR), as a core value; TOP when it cannot be evaluated."""
